@@ -47,6 +47,11 @@ def gen_corr(rng):
         j['range'] = rng.choice([[100.0, 1500.0], [250.0, 1000.5]])
     if rng.random() < 0.5:
         j['mutate'] = rng.choice(['del_H', 'del_S', 'del_Cp', 'set_range'])
+    k = rng.random()
+    if k < 0.25:
+        j['np_scalars'] = True
+    elif k < 0.45:
+        j['via_update'] = True
     return j
 
 
